@@ -38,8 +38,9 @@ def oracle_c14(sc, obs, single):
             bad.append(('boundary-not-a-stamp', 'segment end time %r is not a stored stamp' % sg['tf']))
     last, slast = obs['segs'][-1], single['segs'][-1]
     if last['ok'] and slast['ok'] and last['tf'] == slast['tf']:
-        ev_a = [e['t'] for e in obs['events']]
-        ev_b = [e['t'] for e in single['events']]
+        # timed events only: custom event flags are raised by the (different) scripts of the two runs
+        ev_a = [e['t'] for e in obs['events'] if not e.get('custom')]
+        ev_b = [e['t'] for e in single['events'] if not e.get('custom')]
         if ev_a != ev_b:
             lost = [x for x in ev_b if x not in ev_a]
             rep = [x for x in set(ev_a) if ev_a.count(x) > 1]
